@@ -38,7 +38,7 @@ T_Reset == /\ IsEvent("reset")
 
 T_Pick == /\ IsEvent("pick")
           /\ G("pick.free", cur = None)
-          /\ G("pick.task", E.task \in Actor \cup Client)
+          /\ G("pick.task", E.task \in Actor \cup Client \cup DOMAIN tmr)
           /\ Pick(E.task)
 
 T_Block == /\ IsEvent("block")
@@ -47,6 +47,7 @@ T_Block == /\ IsEvent("block")
               \* the real task is suspended: the spec's must be too
               /\ IF yl \/ ~CanStep(t) THEN TRUE
                  ELSE IF t \in Client THEN G("blk." \o cli[t].stage, FALSE)
+                 ELSE IF t \in DOMAIN tmr THEN G("blk.timer", FALSE)
                  ELSE IF act[t].pc = "idle" THEN G(IF act[t].mq = <<>> THEN "blk.loop.closed" ELSE "blk.loop.deq", FALSE)
                  ELSE IF act[t].pc = "handling" THEN G("blk.loop.handling", FALSE)
                  ELSE G("blk.loop", FALSE)
@@ -57,6 +58,8 @@ T_Exit == /\ IsEvent("exit")
              /\ G("exit.cur", cur = t /\ ~yl)
              /\ IF t \in Client
                 THEN G("exit.client", cli[t].stage = "idle" /\ E.how = "ready")
+                ELSE IF t \in DOMAIN tmr
+                THEN G("exit.timer", tmr[t].st = "ended" /\ E.how = "ready")
                 ELSE /\ G("exit.loop", t \in Actor /\ act[t].pc \in {"done", "failed"})
                      /\ G("exit.how", (E.how = "panic") <=> (act[t].why = "panic"))
              /\ cur' = None /\ yl' = FALSE /\ UNCHANGED sys
@@ -158,7 +161,16 @@ T_Eff == /\ IsEvent("eff")
             /\ G("eff.script", InScript(a) /\ ~ScriptDone(a) /\ act[a].sdl < 0)
             /\ G("eff.kind", CurEff(a).e = E.e /\ CurEff(a).n = E.n)
             /\ (E.e \in {"ctx_stop", "ctx_restart"} => G("eff.ctx", (E.res = "ok") <=> CtxSubmitOk(a)))
+            /\ (E.e \in TimerKinds => G("eff.timer", CurEff(a).s = E.s))
             /\ ScriptStep(a) /\ UNCHANGED <<cur, yl>>
+
+T_TimerFire == /\ IsEvent("timer_fire")
+               /\ LET i == E.task IN
+                  /\ G("tf.cur", cur = i /\ ~yl /\ i \in DOMAIN tmr)
+                  /\ G("tf.state", tmr[i].st = "sleeping")          \* not aborted / ended: the actor (incarnation) is alive
+                  /\ G("tf.due", now >= tmr[i].dl)                   \* not before its period / delay
+                  /\ G("tf.k", tmr[i].k + 1 = E.k)
+                  /\ TimerFire(i) /\ UNCHANGED <<cur, yl>>
 
 T_DefaultNew == /\ IsEvent("default_new")
                 /\ G("dn.recreate", E.task \in Actor /\ act[E.task].pc = "rs_mid" /\ act[E.task].strat = "recreate")
@@ -172,6 +184,7 @@ T_Quiescent == /\ IsEvent("quiescent")
                /\ (E.capped \/
                     /\ G("q.loops", \A a \in Actor : ~CanStep(a))
                     /\ G("q.clients", \A c \in Client : ~CanStep(c))
+                    /\ G("q.timers", \A i \in DOMAIN tmr : ~CanStep(i))
                     /\ G("q.unresolved", SeqSet(E.unresolved) = {c \in Client : cli[c].stage # "idle"})
                     /\ G("q.alive", SeqSet(E.alive) = Alive))
                /\ UNCHANGED vars
@@ -186,9 +199,10 @@ IsSilentLoop(a) ==
 T_Silent == /\ cur # None /\ ~yl /\ l' = l
             /\ \/ cur \in Actor /\ IsSilentLoop(cur) /\ RunLoop(cur)
                \/ cur \in Client /\ cli[cur].stage = "flush" /\ cli[cur].op = "call" /\ RunCont(cur)
+               \/ cur \in DOMAIN tmr /\ (TimerStart(cur) \/ TimerFlushed(cur) \/ TimerEnd(cur)) /\ UNCHANGED <<cur, yl>>
 
 TNext == \/ T_Reset \/ T_Pick \/ T_Block \/ T_Exit \/ T_Yield \/ T_Advance \/ T_Cancel
-         \/ T_OpBegin \/ T_OpEnd \/ T_Cb \/ T_HBegin \/ T_HEnd \/ T_HAbandon \/ T_Eff \/ T_DefaultNew
+         \/ T_OpBegin \/ T_OpEnd \/ T_Cb \/ T_HBegin \/ T_HEnd \/ T_HAbandon \/ T_Eff \/ T_DefaultNew \/ T_TimerFire
          \/ T_Quiescent \/ T_Silent
 TSpec == TInit /\ [][TNext]_tvars
 
